@@ -150,11 +150,26 @@ def run_case(ctx, index: int, *, salt="hist"):
     return found, summary, hist
 
 
+WALL_LIMIT = {"quick": 240, "thorough": 1500}
+
+
 async def search(ctx):
+    import time
+
+    t0 = time.time()
+    broken_runs = 0
     n = ctx.budget(160, 3000)
     st = ctx.stats
     for i in range(n):
         found, summary, hist = await asyncio.to_thread(run_case, ctx, i)
+        broken_runs += sum(1 for sig, _, _ in found if sig.startswith("director-"))
+        if broken_runs >= 3 or time.time() - t0 > WALL_LIMIT[ctx.tier]:
+            # a director that hangs or dies costs a watchdog period per case: the violation is
+            # recorded, there is no point in paying for it hundreds of times
+            st.count("search-stopped-early-after-cases", i + 1)
+            stop = True
+        else:
+            stop = False
         st.case(("hist", tuple(hist.mutations), summary["watch"]), nontrivial=summary["cone_executed"] > 0)
         st.programs += 1
         for key in ("noop_checks", "cone_checks", "cone_executed", "cone_nonempty", "nbuild", "commands"):
@@ -174,6 +189,8 @@ async def search(ctx):
                 "how": "props/c04.py run_case(ctx, index): every successful build is repeated unchanged; phases "
                        "that edit sources only are checked against buildkit.cone",
             }))
+        if stop:
+            break
     if not st.rule:
         st.rule = ("a case is one history of the C01 generator (half of the phases edit source files only); every "
                    "successful build is followed by an unchanged rebuild (restart with another job count and schedule, "
